@@ -76,6 +76,26 @@ CHECKS = {
         note='Bounds are those declared by get_param(); item sizes are recomputed from the items without the '
              'vector\'s own bookkeeping.',
         design='3 (C12)'),
+    'C08': dict(
+        technique='differential testing against an independent RFC reference codec (vf/ref/dns.py): Hypothesis-generated '
+                  'plain-data models + a seeded boundary grid; compose == reference RDATA, parse(reference) recovers '
+                  'the model, key_tag == RFC 4034 Appendix B transcription',
+        text='~31k (thorough ~460k) models of DNSKEY (all supported algorithms x flag subsets, RSA exponent length '
+             'forms, boundary moduli, real curve points with leading-zero coordinates, Ed25519/Ed448), DS, RRSIG '
+             '(private types, full 32-bit times), MX, TXT (multi-string, >255) and names are encoded by a reference '
+             'written from the RFC text and compared byte for byte in both directions; key tags for even and odd RDATA.',
+        note='The reference codec is a second implementation by the same reader of the RFCs; it reproduces the key '
+             'tags printed in RFC 4034/5702/5933/6605/8080.',
+        design='3 (C08)'),
+    'C09': dict(
+        technique='differential testing against an independent reference codec (vf/ref/app.py) for MySQL, TPKT/X.224/RDP, '
+                  'OpenVPN, PostgreSQL and hand-written BER for LDAP: compose == reference, parse(reference) recovers '
+                  'the model and the PDU class, cross-parsing request/response must be refused',
+        text='~31k (thorough ~460k) models over all capability/status subsets, character sets, result codes, '
+             'packet-id arrays, references and flag subsets; every reference encoding is also fed to the opposite '
+             'parser (request vs confirm/response), which must raise rather than return an object of the wrong kind.',
+        note='MySQL auth-plugin-data region where published documentation versions disagree is judged by round trip only.',
+        design='3 (C09)'),
 }
 
 NOT_YET = {}
